@@ -86,7 +86,7 @@ func (p c03) Run(w *mon.Worker, idx int) mon.Result {
 	if doc.IsScalar() {
 		doc = ref.SeqV(doc, ref.IntV(1), ref.IntV(2))
 	}
-	fam := []string{"fresh", "union", "derived", "fresh", "union", "derived", "side"}[idx%7]
+	fam := []string{"fresh", "union", "derived", "fresh", "union", "derived", "side", "mapderived"}[idx%8]
 	res := mon.Result{Tags: []string{"family:" + fam}}
 	cs := map[string]any{"doc": doc.JSON(), "family": fam}
 	res.Case = cs
@@ -235,6 +235,76 @@ func (p c03) Run(w *mon.Worker, idx int) mon.Result {
 		}
 		res.Verdict, res.Nontrivial = mon.Held, nontrivial(doc, all)
 		res.Detail = fmt.Sprintf("%d+%d location(s), both orders agree", len(t1), len(t2))
+		return res
+
+	case "mapderived":
+		// a MAP just produced by + or * of two maps that share keys: deleting an entry of the result removes
+		// that entry of the result (whichever operand its value came from)
+		keys := []string{"x", "y", "z", "w", "v"}
+		mk := func() *ref.V {
+			m := &ref.V{K: ref.Map, M: []ref.KV{}}
+			for _, k := range keys {
+				if r.IntN(5) < 3 {
+					m.M = append(m.M, ref.KV{K: k, V: gen.SimpleValue(r, 1)})
+				}
+			}
+			return m
+		}
+		a, b := mk(), mk()
+		d2 := ref.MapV(ref.KV{K: "a", V: a}, ref.KV{K: "b", V: b}, ref.KV{K: "keep", V: ref.IntV(1)})
+		f := []string{".a + .b", ".a * .b", ".b + .a", `.a + {"y": 5, "q": 6}`, `.a * {"x": {"n": 1}}`, ".a *+ .b", `{"y": 0, "z": 0} + .b`, ".a + .b + .a"}[r.IntN(8)]
+		derived, _, derr := evalDoc(f, d2)
+		res.Evals++
+		if derr != nil || derived == nil || derived.K != ref.Map || len(derived.M) == 0 {
+			return skip("deriving expression not defined here")
+		}
+		var selStr string
+		var del [][]any
+		pickKey := func() string { return derived.M[r.IntN(len(derived.M))].K }
+		switch r.IntN(4) {
+		case 0:
+			k := pickKey()
+			selStr, del = "."+k, [][]any{{k}}
+		case 1:
+			k1, k2 := pickKey(), pickKey()
+			selStr, del = "."+k1+", ."+k2, [][]any{{k1}, {k2}}
+		case 2:
+			kv := derived.M[r.IntN(len(derived.M))]
+			// (numbers are not used: the value is read back from JSON, where 100.0 is spelled 100)
+			// (nor booleans / strings spelled like another type: `"true" == true` holds for yq's ==)
+			if !(kv.V.K == ref.Str && ref.ExprStringOK(kv.V.S) && !hasGlob(kv.V.S) && !c06LooksTyped(kv.V.S) && kv.V.S != "") {
+				return skip("no plain string to select by")
+			}
+			selStr = ".[] | select(. == " + ref.Lit(kv.V).String() + ")"
+			for _, o := range derived.M {
+				if ref.NodeEqual(o.V, kv.V) {
+					del = append(del, []any{o.K})
+				}
+			}
+		default:
+			k := pickKey()
+			selStr, del = `.["`+k+`"]`, [][]any{{k}}
+		}
+		for _, p := range del {
+			if !identOK(fmt.Sprint(p[0])) {
+				return skip("key not printable as a path element")
+			}
+		}
+		expr := f + " | del(" + selStr + ")"
+		cs["expr"], cs["doc"] = expr, d2.JSON()
+		res.Tags = append(res.Tags, "f:"+f)
+		res.Sig = fmt.Sprintf("mapderived|%s|%s|%x", f, selStr, d2.ShapeHash())
+		want := ref.DeletePaths(derived, del)
+		got, _, yerr := evalDoc(expr, d2)
+		res.Evals++
+		if yerr != nil {
+			return fail("`%s` failed: %v", expr, yerr)
+		}
+		if got == nil || !ref.EqualNum(got, want) {
+			return fail("`%s`\n input of del %s\n expected     %s\n observed     %s", expr, derived, want, got)
+		}
+		res.Verdict, res.Nontrivial = mon.Held, len(derived.M) > len(del)
+		res.Detail = fmt.Sprintf("%d of %d entries removed from the result of %s", len(del), len(derived.M), f)
 		return res
 
 	case "side":
